@@ -355,4 +355,45 @@ theorem valuesOK_of_item (ch : EbChoices) (o : EbOpts) (g : Geometry) (e : Nat) 
     rw [hnc]
     exact this
 
+/-- **`eb_roundtrip_conditional` with `PlanOK` resolved into its sources** (`planOK_of_setup`): the descriptor and
+    transform-parameter conditions are theorems; hypotheses left: the CONNECTIVITY LINK `hconn`; the decoder-side facts
+    `hdec` (id ranges, the decoder's own sequence / point-map runs), `hids`; the value conditions `hvals`
+    (`valuesOK_of_item`: the checked value-block theorem); the input attributes inside the format's domain `hatt`; and the
+    face correspondence (`EbFaceCorr`: from the row correspondences of `EbTuples`; `hcover`: the traversal reaches every
+    non-degenerate face). -/
+theorem eb_roundtrip_conditional_sources (ch : EbChoices) (g : Geometry) (md : Option GeometryMetadata) (o : EbOpts)
+    (enc : Encoded) (henc : encodeEdgebreaker ch g md o = .ok enc) (hmd : ∀ m, md = some m → m.WF')
+    (mesh : Mesh) (sides : List (SeqOut × Array Nat)) (hsides : enc.couts.size = sides.length)
+    (hconn : ∀ coder, traversalCoder o g.faces.length = some coder →
+      Runs decodeConnectivity 514 ([coder] ++ enc.conn.bytes) mesh 514)
+    (plan : AttPlan) (hplan : plan = planOf o g.atts.toArray enc.conn enc.controllers enc.couts.toList sides)
+    (hatt : ∀ a, a < g.atts.toArray.size → EbAttOK (g.atts.toArray[a]!) (o.base.att a))
+    (hids : plan.Pairwise fun a b =>
+      (0 ≤ b.dec.attDataId → a.dec.attDataId ≠ b.dec.attDataId) ∧ (b.dec.attDataId < 0 → 0 ≤ a.dec.attDataId))
+    (hdec : ∀ d ∈ plan, DecoderOK mesh d)
+    (hvals : ∀ (i k : Nat) (hi : i < plan.length) (hk : k < plan[i].items.length),
+      ValuesOK mesh plan[i] (parentAt plan i k) plan[i].items[k])
+    (req : Spec.QuantReq) (ms : List Spec.Matched)
+    (hlen : g.atts.length = (plan.attributes {}).length)
+    (huid : (g.atts.map (·.uniqueId)).Nodup)
+    (hms : Spec.collect (g.atts.map (Spec.matchOne req (planGeometry {} mesh plan)
+      (planGeometry { skip := allTypes } mesh plan))) = some ms)
+    (σ : Nat → Nat)
+    (hσlt : ∀ i, i < (facesOf mesh).length → σ i < g.faces.length)
+    (hσinj : ∀ i j, i < (facesOf mesh).length → j < (facesOf mesh).length → σ i = σ j → i = j)
+    (hface : ∀ i (hi : i < (facesOf mesh).length), T_dec ms ((facesOf mesh)[i]) = T_exp ms (g.faces[σ i]'(hσlt i hi)))
+    (hcover : ∀ j (hj : j < g.faces.length), nondegFace g (g.faces[j]) = true →
+      ∃ i, i < (facesOf mesh).length ∧ σ i = j)
+    (extra : Bytes) :
+    ∃ st st',
+      decodeGeometry {} { rest := enc.bytes ++ extra } = (some ⟨planGeometry {} mesh plan, md⟩, st) ∧ st.rest = extra ∧
+      decodeGeometry { skip := allTypes } { rest := enc.bytes ++ extra } =
+        (some ⟨planGeometry { skip := allTypes } mesh plan, md⟩, st') ∧ st'.rest = extra ∧
+      Spec.checkCore .edgebreaker req g (planGeometry {} mesh plan) (planGeometry { skip := allTypes } mesh plan) = true := by
+  subst hplan
+  exact eb_roundtrip_conditional ch g md o enc henc hmd mesh sides hsides hconn _ rfl
+    (planOK_of_setup ch g md o enc henc {} mesh sides hsides hatt hids hdec hvals)
+    (planOK_of_setup ch g md o enc henc { skip := allTypes } mesh sides hsides hatt hids hdec hvals)
+    req ms hlen huid hms σ hσlt hσinj hface hcover extra
+
 end Draco.EbEnc
